@@ -551,6 +551,20 @@ func (n *Node) handle(cn *Conn, p *memd.Packet, e *Entry) {
 		res.Value = v
 	case memd.CmdObserveSeqNo:
 		c.mu.Lock()
+		holds := false
+		if int(p.Vbucket) < len(c.VbMap) {
+			for _, srv := range c.VbMap[p.Vbucket] {
+				holds = holds || srv == n.Idx
+			}
+		}
+		if !holds {
+			// a node that holds no copy of the vBucket (any more) says so and attaches the current map; the client
+			// applies it and asks the right node
+			res.Status = memd.StatusNotMyVBucket
+			res.Value = c.config(n.Idx)
+			c.mu.Unlock()
+			break
+		}
 		st := c.Persist[[2]int{int(p.Vbucket), n.Idx}]
 		e.ObsUUID, e.ObsPersist = st[0], st[1]
 		c.mu.Unlock()
